@@ -115,7 +115,7 @@ func TestC15_PaddedPassword(t *testing.T) {
 	if !check("sekret") {
 		return
 	}
-	ev.Rapid("paddedpw", ev.Pick(6, 60))
+	ev.Rapid("paddedpw", ev.Pick(6, 30))
 	rapid.Check(t, func(rt *rapid.T) {
 		pw := rapid.StringMatching(`[a-zA-Z0-9_\-!.]{2,12}`).Draw(rt, "password")
 		if !check(pw) {
@@ -263,7 +263,7 @@ func TestC15_PasswordPersist(t *testing.T) {
 			return
 		}
 	}
-	ev.Rapid("pwpersist", ev.Pick(6, 40))
+	ev.Rapid("pwpersist", ev.Pick(6, 15))
 	rapid.Check(t, func(rt *rapid.T) {
 		var pw string
 		switch rapid.IntRange(0, 3).Draw(rt, "pwclass") {
